@@ -168,6 +168,52 @@ func checkC04(c *Case, s *Stats) error {
 			}
 		}
 	}
+	if complete && len(scans) >= 2 {
+		// two live iterators on the same trie, advanced alternately in one
+		// goroutine, after earlier scans ran to exhaustion: they must not interfere
+		a, b := scans[0], scans[len(scans)/2]
+		err := guard("interleaved iterators", func() error {
+			ita := st.NewIter(string(a.Start), a.InclStart, true)
+			itb := st.NewIter(string(b.Start), b.InclStart, false)
+			fa, ta := m.scan(string(a.Start), a.InclStart, false, "", false)
+			fb, tb := m.scan(string(b.Start), b.InclStart, false, "", false)
+			var heldA []byte // key returned by iterator A, still valid until A is called again
+			heldIdx := -1
+			for step := 0; step < 8; step++ {
+				ka, _ := ita()
+				if fa+step < ta {
+					if ka == nil || string(ka) != m.Keys[fa+step] {
+						return viol("iter-interference", "iterator A (start %s) step %d yields %s, want %s while iterator B is alive", q(string(a.Start)), step, q(string(ka)), q(m.Keys[fa+step]))
+					}
+					heldA, heldIdx = ka, fa+step
+				} else if ka != nil {
+					return viol("iter-interference", "iterator A yields %s after its range ended", q(string(ka)))
+				} else {
+					heldA, heldIdx = nil, -1
+				}
+				kb, vb := itb()
+				if fb+step < tb {
+					if kb == nil || string(kb) != m.Keys[fb+step] {
+						return viol("iter-interference", "iterator B (start %s) step %d yields %s, want %s while iterator A is alive", q(string(b.Start)), step, q(string(kb)), q(m.Keys[fb+step]))
+					}
+					if vb != nil {
+						return viol("scan-value", "iterator B yields a value although none was requested")
+					}
+				} else if kb != nil {
+					return viol("iter-interference", "iterator B yields %s after its range ended", q(string(kb)))
+				}
+				// the slice handed out by A must not have been touched by B's step
+				if heldIdx >= 0 && string(heldA) != m.Keys[heldIdx] {
+					return viol("iter-interference", "the key returned by iterator A (%s) was overwritten by a step of iterator B", q(m.Keys[heldIdx]))
+				}
+			}
+			return nil
+		})
+		if err != nil {
+			return err
+		}
+		s.class("interleaved_iterators_checked")
+	}
 	s.calls(len(scans))
 	if !complete {
 		cls := fmt.Sprintf("refusal:%s/dedup=%v/vals=%v", c.Opt.mode(), c.Opt.dedup(), c.HasVals)
